@@ -45,3 +45,15 @@ func (p *Peer) SimDone() bool {
 		return false
 	}
 }
+
+// SimFast returns the pieces this peer has allowed-fast.
+func (p *Peer) SimFast() []uint32 { return append([]uint32(nil), p.fast...) }
+
+// SimOutstanding returns the chunks requested from this peer and not yet answered.
+func (p *Peer) SimOutstanding() []uint32 {
+	_, r := p.requests.SimIndices()
+	return r
+}
+
+// SimCommands returns the number of commands from the torrent waiting in this peer's queue.
+func (p *Peer) SimCommands() int { return len(p.Event) }
